@@ -815,4 +815,168 @@ theorem lexComment_inv (l : L) (h : Inv l)
     · obtain ⟨b1, b1p⟩ := next_blk h.le h47 (by decide)
       exact block_inv l _ h b1 (peek2_shift h42 (by decide) (core_fields b1.core).1 (b1p (by decide)))
 
+/-- a token emitted after a scanner run that started at the token's first byte -/
+theorem blk_emit (l l3 : L) (h : Inv l) (hb : Blk { l with start := l.pos } l3)
+    (id : Nat) (val : List Nat) (ident ae : Bool) :
+    Inv (l3.emit id val ident ae) ∧ (l3.emit id val ident ae).inp = l.inp := by
+  obtain ⟨c1, c2, c3, c4, c5⟩ := core_fields hb.core
+  simp only [] at c1 c2 c3 c4 c5
+  have hok : AllOK l3 := by intro t ht; rw [c5] at ht; rw [c1, c5]; exact h.ok t ht
+  have hst : Tr l3.inp l3.toks.toList l3.start l3.line l3.lastnl := by
+    rw [c1, c2, c3, c4, c5]; exact h.tr
+  have hab : Tr l3.inp l3.toks.toList l3.pos l3.line l3.lastnl := by
+    rw [c1, c2, c3, c5]; exact h.tr.noNl hb.ge hb.nonl
+  exact ⟨emit_phase l3 id val ident ae l3.line l3.lastnl hok hst hb.le hab, c1⟩
+
+theorem lowerGo_nil {s : List Nat} (h : (lowerGo s).length > 0) : s.length > 0 := by
+  cases s with
+  | nil => simp [lowerGo] at h
+  | cons _ _ => simp
+
+theorem blank_false_of {c : Nat} (h : c = 47 ∨ c = 35 ∨ c = 34 ∨ c = 39 ∨ c = 114) : blank (some c) = false := by
+  rcases h with rfl | rfl | rfl | rfl | rfl <;> decide
+
+/-- skipWhiteSpace in front of a comment / string opener: invariant kept, nothing consumed -/
+theorem sws_opener (l : L) (h : Inv l) {c : Nat} (hpk : l.peek 1 = some c)
+    (hc : c = 47 ∨ c = 35 ∨ c = 34 ∨ c = 39 ∨ c = 114) :
+    AllOK (skipWhiteSpace l).1 ∧ (skipWhiteSpace l).1.inp = l.inp ∧
+    ((skipWhiteSpace l).2 = true → Inv (skipWhiteSpace l).1 ∧ ∀ n, (skipWhiteSpace l).1.peek n = l.peek n) := by
+  obtain ⟨hp, hd⟩ := peek1_some hpk
+  obtain ⟨e1, e2⟩ := sws_pos l hp (by rw [hd]; exact blank_false_of hc)
+  exact ⟨(sws_ext l).allOK h.ok, e2, fun hok => ⟨sws_inv l h hok, fun n => peek_congr e2 e1 n⟩⟩
+
+theorem lexWordText_inv (l l2 : L) (h : Inv l) (hb : Blk { l with start := l.pos } l2) :
+    AllOK (lexWordText l2).1 ∧ ((lexWordText l2).2 = Next.token → Inv (lexWordText l2).1) ∧
+      (lexWordText l2).1.inp = l.inp := by
+  have b3 := hb.trans (lexTextBlock_blk l2 hb.le)
+  simp only [lexWordText]
+  split
+  · rename_i t _
+    unfold L.emitToken
+    split
+    · obtain ⟨i1, i2⟩ := blk_emit l _ h b3 tEOF [] false false
+      exact ⟨i1.ok, fun _ => i1, i2⟩
+    · obtain ⟨i1, i2⟩ := blk_emit l _ h b3 t ((lexTextBlock l2).slice (lexTextBlock l2).start (lexTextBlock l2).pos) false false
+      exact ⟨i1.ok, fun _ => i1, i2⟩
+  · split
+    · obtain ⟨i1, i2⟩ := blk_emit l _ h b3 tERROR (str "Cannot parse identifier") false false
+      exact ⟨i1.ok, fun h' => by simp at h', i2⟩
+    · obtain ⟨i1, i2⟩ := blk_emit l _ h b3 tIDENTIFIER
+        ((lexTextBlock l2).slice (lexTextBlock l2).start (lexTextBlock l2).pos) true false
+      exact ⟨i1.ok, fun _ => i1, i2⟩
+
+theorem lexWord_inv (l : L) (h : Inv l) :
+    AllOK (lexWord { l with start := l.pos }).1 ∧
+      ((lexWord { l with start := l.pos }).2 = Next.token → Inv (lexWord { l with start := l.pos }).1) ∧
+      (lexWord { l with start := l.pos }).1.inp = l.inp := by
+  have b1 : Blk { l with start := l.pos } (lexNumberBlock { l with start := l.pos }) :=
+    lexNumberBlock_blk _ h.le
+  simp only [lexWord]
+  split
+  · obtain ⟨i1, i2⟩ := blk_emit l _ h b1 tNUMBER
+      (lowerGo ((lexNumberBlock { l with start := l.pos }).slice (lexNumberBlock { l with start := l.pos }).start
+        (lexNumberBlock { l with start := l.pos }).pos)) false false
+    exact ⟨i1.ok, fun _ => i1, i2⟩
+  · apply lexWordText_inv l _ h
+    obtain ⟨c1, c2, c3, c4, c5⟩ := core_fields b1.core
+    simp only [] at c4
+    split
+    · rename_i hk
+      have hlen := lowerGo_nil hk
+      have hge : (lexNumberBlock { l with start := l.pos }).start ≤ (lexNumberBlock { l with start := l.pos }).pos := by
+        rw [c4]; exact b1.ge
+      rw [slice_length _ _ _ hge b1.le] at hlen
+      have hpos : ((lexNumberBlock { l with start := l.pos }).backup
+          ((lexNumberBlock { l with start := l.pos }).pos - (lexNumberBlock { l with start := l.pos }).start)).pos = l.pos := by
+        simp only [L.backup]
+        have : ¬ ((lexNumberBlock { l with start := l.pos }).pos - (lexNumberBlock { l with start := l.pos }).start = 0) := by omega
+        simp only [this, if_false]
+        rw [c4]; have := b1.ge; simp only [] at this; omega
+      refine ⟨by simpa [L.core, L.backup] using b1.core, by rw [hpos]; exact Nat.le_refl _, ?_, by rw [hpos]; exact noNl_empty _ _⟩
+      rw [hpos]
+      show l.pos ≤ (lexNumberBlock { l with start := l.pos }).inp.size
+      rw [c1]; exact h.le
+    · exact b1
+
+theorem lexToken_inv (l : L) (h : Inv l) :
+    AllOK (lexToken l).1 ∧ ((lexToken l).2 = Next.token → Inv (lexToken l).1) ∧ (lexToken l).1.inp = l.inp := by
+  simp only [lexToken]
+  split
+  · rename_i hc
+    simp only [Bool.or_eq_true, Bool.and_eq_true, decide_eq_true_eq] at hc
+    have hpk : ∃ c, l.peek 1 = some c ∧ (c = 47 ∨ c = 35 ∨ c = 34 ∨ c = 39 ∨ c = 114) := by
+      rcases hc with ⟨h1, _⟩ | h1
+      · exact ⟨47, h1, Or.inl rfl⟩
+      · exact ⟨35, h1, Or.inr (Or.inl rfl)⟩
+    obtain ⟨c, hpk, hcc⟩ := hpk
+    obtain ⟨s1, s2, s3⟩ := sws_opener l h hpk hcc
+    split
+    · rename_i hok
+      obtain ⟨hinv, hpe⟩ := s3 hok
+      have := lexComment_inv _ hinv (by
+        rw [hpe 1, hpe 2]
+        rcases hc with ⟨h1, h2⟩ | h1
+        · exact Or.inr ⟨h1, h2⟩
+        · exact Or.inl h1)
+      exact ⟨this.1, this.2.1, this.2.2.trans s2⟩
+    · exact ⟨s1, fun h' => by simp at h', s2⟩
+  · split
+    · rename_i hc
+      simp only [Bool.or_eq_true, Bool.and_eq_true, decide_eq_true_eq] at hc
+      have hpk : ∃ c, l.peek 1 = some c ∧ (c = 47 ∨ c = 35 ∨ c = 34 ∨ c = 39 ∨ c = 114) := by
+        rcases hc with (h1 | h1) | ⟨h1, _⟩
+        · exact ⟨34, h1, by simp⟩
+        · exact ⟨39, h1, by simp⟩
+        · exact ⟨114, h1, by simp⟩
+      obtain ⟨c, hpk, hcc⟩ := hpk
+      obtain ⟨s1, s2, s3⟩ := sws_opener l h hpk hcc
+      split
+      · rename_i hok
+        obtain ⟨hinv, hpe⟩ := s3 hok
+        have := lexValue_inv _ hinv (by
+          rw [hpe 1, hpk]
+          rcases hcc with rfl | rfl | rfl | rfl | rfl <;> decide)
+        exact ⟨this.1, this.2.1, this.2.2.trans s2⟩
+      · exact ⟨s1, fun h' => by simp at h', s2⟩
+    · exact lexWord_inv l h
+
+theorem lex_loop_ok (fuel : Nat) : ∀ (l : L), Inv l →
+    AllOK (lex.loop fuel l) ∧ (lex.loop fuel l).inp = l.inp := by
+  induction fuel with
+  | zero => intro l h; exact ⟨h.ok, rfl⟩
+  | succ n ih =>
+    intro l h
+    obtain ⟨t1, t2, t3⟩ := lexToken_inv l h
+    have e := sws_ext (lexToken l).1
+    simp only [lex.loop]
+    split
+    · exact ⟨e.allOK t1, e.1.trans t3⟩
+    · rename_i hc
+      simp only [Bool.or_eq_true, Bool.not_eq_true', decide_eq_true_eq, not_or, Bool.not_eq_false] at hc
+      obtain ⟨hok, hnx⟩ := hc
+      have htok : (lexToken l).2 = Next.token := by
+        cases hx : (lexToken l).2 with
+        | token => rfl
+        | stop => exact absurd hx hnx
+      have := ih _ (sws_inv _ (t2 htok) hok)
+      exact ⟨this.1, this.2.trans (e.1.trans t3)⟩
+
+theorem lex_ok (input : List Nat) :
+    ∀ t ∈ (lex input).toList, TokOK input.toArray (lex input).toList t := by
+  have h0 : Inv ({ inp := input.toArray } : L) :=
+    ⟨Nat.zero_le _, ⟨rfl, Or.inl rfl⟩, fun t ht => by simp at ht⟩
+  have e := sws_ext ({ inp := input.toArray } : L)
+  simp only [lex]
+  split
+  · have := e.allOK h0.ok
+    rw [AllOK, e.1] at this
+    exact this
+  · rename_i hok
+    simp only [Bool.not_eq_true', Bool.not_eq_false] at hok
+    have := lex_loop_ok (input.length + 2) _ (sws_inv _ h0 hok)
+    have hi := this.2.trans e.1
+    have h1 := this.1
+    rw [AllOK, hi] at h1
+    exact h1
+
 end Ecal.Lex
